@@ -100,6 +100,10 @@ def items(tier):
         out.append((f"dvar|{','.join(names)}",
                     prog([f"{names[0]} = 1", "do i = 1, n", f"  a(i + {names[0]}) = a(i) + 1.0", "end do"],
                          extra_decl=decl)))
+        for b in (f"a(i) = a(i + {names[0]}) + 1.0", f"a(i) = a(i - {names[0]}) * 2.0",
+                  f"a(i + {names[0]}) = a(i + 2*{names[0]})", f"a(i) = a({names[0]}) + b(i)"):
+            out.append((f"dvar3|{','.join(names)}|{b}",
+                        prog([f"{names[0]} = 1", "do i = 1, n", "  " + b, "end do"], extra_decl=decl)))
         out.append((f"dvar2|{','.join(names)}",
                     prog([f"{names[0]} = 1", "do j = 1, 2", "do i = 1, n",
                           f"  c(i + {names[0]}, j) = c(i, j) + 1.0", "end do", "end do"], extra_decl=decl)))
